@@ -234,3 +234,39 @@ CHECKS = {
               'invariants after every operation.',
               _GIL + '; workers are kept alive through the registry in (b)'),
 }
+
+
+# ---- additions made after the seeded-defect waves (DESIGN.md section 8.5) ----------
+_ADD = {
+    'C01': ' Plus 17 large-offset catalogue entries (rows 1e8+{0,1,3}, 1.7e9+..., '
+           'mixed 2-D with NaN) with tolerances measured on the unchanged tree '
+           '(mean rtol 1e-13, var rtol 1e-5).',
+    'C05': ' Also configurations without any consumer (the other producers must '
+           'still stop and return).',
+    'C06': ' The fault menu also contains the death of any *other* worker at any '
+           'RPC boundary, a slow consumer, one pause of the orchestrating loop at '
+           'any executed line (slow orchestrator), and tasks that cannot be sent '
+           '(client-side submission failure).',
+    'C08': ' The operator menu has 110 instances incl. multi-entry dict/tuple '
+           'assign keys into existing and fresh nested containers; caller inputs '
+           'are also checked for aliasing into outputs.',
+    'C09': ' Second-generation recovery: the state recorded by a rebuilt shard / a '
+           'restored iterator (before and after one step) must again rebuild the '
+           'same elements.',
+    'C12': ' Data sources: sliceable and index-only sequences, from_sequences '
+           'members of every length, shards incl. one-element and empty ones.',
+    'C14': ' Shutdown is also requested in the middle of a failing / succeeding '
+           'call at each position of the history.',
+    'C16': ' Plus every placement of one orchestrator pause and of one late '
+           '(delivered, but slow) reply on 10 configurations.',
+    'C17': ' One callable returns None; falsy values (None, 0, "") are stored in '
+           'the LruCache BFS and the handle registry.',
+    'C19': ' Plus numpy columns whose element type changes between input batches '
+           '(int/float, bool/int, string widths).',
+    'C20': ' Plus (a3) 2-3 threads of concurrent registry operations (<=2 '
+           'preemptions) that must be linearizable w.r.t. the dict model and (c) '
+           'as_completed / run / call_and_wait x task ok / raising / unsendable x '
+           '<=1 fault or pause: no worker stays acquired.',
+}
+for _k, _v in _ADD.items():
+  CHECKS[_k]['text'] += _v
